@@ -14,6 +14,8 @@ Model: `EV.getValue` (exp/reflects.go `getValue`; total, result `found v | absen
 `.name`/`['name']` pass the name, `[i]` passes `toString i` = `EV.indexName`), `EV.sliceOf` (the `.slice` case
 of `eval` on evaluated bounds, `TplModel/Proofs/AccessProofs.lean`).  Specification: `TplModel/Spec/Walk.lean`.
 All statements hold for EVERY value of the universe `EV.Val` and every name / integer.
+`TplModel/Props/C13eval.lean` lifts them to statements about `EV.eval` itself (`eval_field`, `eval_index`,
+`eval_slice`, `access_total`); `indexName` / `sliceOf` are proved to be what `eval` computes there.
 
 `getValue` and `sliceOf` are total functions: "never a panic" for member and index access is the fact that
 `getValue` has no `panic` outcome (the reflect panic on an unexported field is the outcome `failed`);
